@@ -102,23 +102,20 @@ theorem argmax_rank1_nokeep (lt : α → α → Bool) (t : Tensor α) (n : Nat) 
   rw [h0]
   simp [h]
 
-theorem argmax_keepdims_mutates (lt : α → α → Bool) (t : Tensor α) (ax : Nat) (hax : ax < t.shape.length)
-    (hne : dim t.shape ax ≠ 1) :
-    ∃ m, argmaxOp lt t (ax : Int) true = .ok (m, some (t.shape.set ax 1)) := by
-  have h0 := gArgmax_ok lt t ax hax
-  unfold argmaxOp
-  have hneg : ¬ ((ax : Int) < 0) := by omega
-  simp only [hneg, if_false]
-  rw [h0]
-  simp only [if_true, Int.toNat_natCast]
-  have : t.shape.set ax 1 ≠ t.shape := by
-    intro hEq
-    apply hne
-    have : dim (t.shape.set ax 1) ax = dim t.shape ax := by rw [hEq]
-    rw [← this]
-    simp [dim, hax]
-  rw [if_neg this]
-  exact ⟨_, rfl⟩
+/-- since the `fix:` commit ArgMax never writes to its input, with or without keepdims -/
+theorem argmax_pure (lt : α → α → Bool) (t : Tensor α) (axis : Int) (keep : Bool) (m : Tensor Int) (mu : Option (List Nat))
+    (h : argmaxOp lt t axis keep = .ok (m, mu)) : mu = none := by
+  unfold argmaxOp at h
+  simp only at h
+  split at h
+  · cases h
+  · cases keep with
+    | true => simp only [if_true] at h; cases h; rfl
+    | false =>
+      simp only [Bool.false_eq_true, if_false] at h
+      split at h
+      · cases h
+      · cases h; rfl
 
 theorem argmax_nokeep_pure (lt : α → α → Bool) (t : Tensor α) (axis : Int) (m : Tensor Int) (mu : Option (List Nat))
     (h : argmaxOp lt t axis false = .ok (m, mu)) : mu = none := by
